@@ -227,6 +227,17 @@ pub fn encode_at<T: BinarySerializer>(x: &T, place: GraphPlace) -> Out<Vec<u8>> 
     guarded(|| desert::serialize_to_byte_vec(&Placed { x, place })).0
 }
 
+/// the same through the three kinds of sink: bytes into a `Vec`, bytes into a `BytesMut`, and the
+/// size a `SizeCalculator` reports
+pub fn encode_at_sinks<T: BinarySerializer>(x: &T, place: GraphPlace) -> (Out<Vec<u8>>, Out<Vec<u8>>, Out<usize>) {
+    let p = Placed { x, place };
+    (
+        guarded(|| desert::serialize(&p, Vec::new())).0,
+        guarded(|| desert::serialize(&p, bytes::BytesMut::new()).map(|b| b.to_vec())).0,
+        guarded(|| desert::serialize(&p, desert::SizeCalculator::new()).map(|s| s.size())).0,
+    )
+}
+
 fn read_at<T: BinaryDeserializer>(ctx: &mut DeserializationContext<'_>, place: GraphPlace) -> Result<T> {
     if place == GraphPlace::Top {
         return T::deserialize(ctx);
